@@ -72,4 +72,77 @@ def deleteM (B : Nat) (objs : List Obj) : FileM Unit := do
   verifyFileobj
   saveM B objs [] padZero
 
+/-! ### ASF(fileobj): the load as a program over the file object
+
+`ASF.load` is `@convert_error(IOError, error) @loadfile()` around `HeaderObject.parse_full`:
+
+  verify_fileobj            read(0)                          any exception -> ValueError
+  parse_size                read(30)                         short / wrong GUID -> ASFHeaderError
+  for each of `num_objects`: read(24)                        short -> ASFHeaderError("truncated")
+                            read(size - 24)                  short -> ASFHeaderError("truncated")
+                            obj.parse(asf, data)             (no file access; errors as in the pure model)
+
+No seek, no tell, no write.  Every read is followed by a length check, so a short read is never taken
+for the end of the file: it is an ASFHeaderError.  An object size below 24 makes `payload_size`
+negative; the code still calls `read(payload_size)` (which returns the rest of the file, of another
+length than that number): one more file-object call, logged here as `read 0`, before the error.
+The tags and the stream info are computed from the payloads that were read (`loadedTags`; no file access). -/
+
+/-- `verify_fileobj(fileobj)` for a load: `fileobj.read(0)` in `try … except Exception: raise ValueError` -/
+def verifyRead : FileM Unit :=
+  tryCatch (do let _ ← fread 0; pure ()) (fun _ => true) (fun _ => raise .value)
+
+/-- `data = fileobj.read(n); if len(data) != n: raise …` -/
+def freadExact (n : Nat) (err : PyErr) : FileM Bytes := do
+  let d ← fread n
+  if d.length ≠ n then raise err else pure d
+
+/-- `fileobj.read(payload_size)` with a negative size: the rest of the file is read, then "truncated" -/
+def freadNegative : FileM Unit := do
+  tick (.read 0)
+  fun _ s => (.ok (), { s with pos := max s.pos s.data.length })
+
+/-- the loop of HeaderObject.parse_full on the file object -/
+def loadObjectsM : Nat → Nat → FileM (List Obj)
+  | 0, _ => pure []
+  | n + 1, remaining =>
+    if remaining < 24 then raise .mutagen
+    else do
+      let h ← freadExact 24 .mutagen
+      let guid := h.take 16
+      let size := ofLE (h.drop 16)
+      if size < 24 then do
+        freadNegative
+        raise .mutagen
+      else if remaining - 24 < size - 24 then raise .mutagen
+      else do
+        let data ← freadExact (size - 24) .mutagen
+        match objOf guid data with
+        | .error e => raise e
+        | .ok o => do
+          let os ← loadObjectsM n (remaining - size)
+          pure (o :: os)
+
+/-- `ASF.load` inside `convert_error`: `loadfile()` then `HeaderObject.parse_full` -/
+def loadBody : FileM (List Obj) := do
+  verifyRead
+  let header ← freadExact 30 .mutagen
+  if header.take 16 ≠ gHeader then raise .mutagen
+  else loadObjectsM (ofLE ((header.drop 24).take 4)) (ofLE ((header.drop 16).take 8) - 30)
+
+/-- `ASF(fileobj)`: the object tree `ASF._header.objects` -/
+def loadM : FileM (List Obj) := convertError PyErr.isIO .mutagen loadBody
+
+/-- `a = ASF(fileobj); fileobj.seek(0); a.save(fileobj, padding)`: load and save on one file object, no
+summarising: every read of the load, the caller's rewind, then the save -/
+def loadSaveM (B : Nat) (tags : List Tag) (pad : PadChoice) : FileM Unit := do
+  let objs ← loadM
+  fseek 0
+  saveM B objs tags pad
+
+def loadDeleteM (B : Nat) : FileM Unit := do
+  let objs ← loadM
+  fseek 0
+  deleteM B objs
+
 end Mutagen.Asf
